@@ -7,5 +7,5 @@ git -C /repo worktree add --detach "$wt" HEAD >/dev/null 2>&1 || { echo "worktre
 trap 'git -C /repo worktree remove --force "$wt" >/dev/null 2>&1' EXIT
 if ! git -C "$wt" apply --3way "$patch" >/dev/null 2>&1; then echo "PATCH DOES NOT APPLY"; exit 3; fi
 if [ -n "$budget" ]; then export VERIF_BUDGET_S=$budget; fi
-VERIF_REPO="$wt" /verif/check "$prop" "$tier" 2>&1 | sed "s#$wt#/repo#g" | grep -vE "^  (detail|signature)" | cut -c1-300
+VERIF_REPO="$wt" ${VERIF_HOME:-/verif}/check "$prop" "$tier" 2>&1 | sed "s#$wt#/repo#g" | grep -vE "^  (detail|signature)" | cut -c1-300
 exit ${PIPESTATUS[0]}
